@@ -84,6 +84,10 @@ func (w *SlotToCid_Writer) Put(slot uint64, cid_ cid.Cid) error {
 	}
 	key := Uint64tob(slot)
 	value := cid_.Bytes()
+	if len(value) > IndexValueSize_SlotToCid {
+		// the index stores fixed-size values: a longer CID would be cut (and every lookup of it would fail)
+		return fmt.Errorf("cid %s is %d bytes long, the index stores CIDs of at most %d bytes", cid_, len(value), IndexValueSize_SlotToCid)
+	}
 	return w.index.Insert(key, value)
 }
 
